@@ -18,7 +18,9 @@ import sc3.base.builtins as bi
 from sc3.seq import pattern as ptt
 from sc3.base import absobject as aob
 from sc3.seq.patterns.listpatterns import (Pseq, Pser, Pswitch, Pswitch1, Ptuple, Place, Pslide,
-                                            Prand, Pxrand)
+                                            Prand, Pxrand, Pwrand)
+import sc3.seq.patterns.listpatterns as _lp
+import sc3.seq.patterns.valuepatterns as _vp
 from sc3.seq.patterns.filterpatterns import (Pn, Plen, Pdrop, Pstutter, Pclump, Pflatten, Pdiff,
                                               Pconst, Pcollect, Pselect, Preject, Pwrap, Pseed)
 from sc3.seq.patterns.valuepatterns import Pseries, Pgeom, Pwhite
@@ -42,6 +44,14 @@ class LogRandom(_random.Random):
         r = super().randrange(start, stop, step)
         LOG.append((self._c13_seed, tuple(self._c13_hist), start, stop, r))
         self._c13_hist.insert(0, (start, stop))
+        return r
+
+    def choices(self, population, weights=None, *, cum_weights=None, k=1):
+        # bi.choices(range(n), weights)[0] (Pwrand): oracle key (-1, n), result = the chosen index
+        r = super().choices(population, weights, cum_weights=cum_weights, k=k)
+        pop = list(population)
+        LOG.append((self._c13_seed, tuple(self._c13_hist), -1, len(pop), pop.index(r[0]) if k == 1 else -7))
+        self._c13_hist.insert(0, (-1, len(pop)))
         return r
 
 
@@ -237,6 +247,13 @@ def build1(e):
         return Pxrand(_lst([B(x) for x in e[1]]), reps(e[2]))
     if k == 'Pwhite':
         return Pwhite(B(e[1]), B(e[2]), reps(e[3]))
+    if k == 'Pwrand':
+        w = None if e[2] is None else [dv(x) for x in e[2]]
+        return Pwrand(_lst([B(x) for x in e[1]]), w, reps(e[3]))
+    if k == 'Pext':
+        # any other random pattern class, by name with literal arguments (implementation-only cases)
+        cls = getattr(_lp, e[1], None) or getattr(_vp, e[1])
+        return cls(*[INF if a == 'inf' else a for a in e[2]])
     raise ValueError('unknown expression kind %r' % (k,))
 
 
@@ -306,6 +323,8 @@ def run_case(c):
     del LOG[:]
     del ARGS[:]
     MEMO = {} if c.get('share') else None
+    mm = sc3.base.main.main
+    grng0 = mm._m_rgen.getstate()
     signal.setitimer(signal.ITIMER_REAL, c.get('timeout', 2.0))
     try:
         try:
@@ -364,8 +383,9 @@ def run_case(c):
     finally:
         signal.setitimer(signal.ITIMER_REAL, 0)
         MEMO = None
+    # every random pattern of a case is inside a Pseed: the global generator must not have been used
+    res['global_rng_touched'] = (mm._m_rgen.getstate() != grng0)
     # error-path cleanup: the current time thread must be the main one again
-    mm = sc3.base.main.main
     if mm.current_tt is not mm.main_tt:
         res['leaked_tt'] = repr(mm.current_tt)
         mm.current_tt = mm.main_tt
